@@ -44,8 +44,13 @@ class Methods:
         if isinstance(obj, RegDict):
             if name == 'get':
                 key = S.const_value(env, a0) if isinstance(a0, Str) else None
+                if key is not None and ('haskey', id(obj), key) in env.facts:
+                    return S.any_str(env)
                 d = args[1] if len(args) > 1 else RegNone(obj.name, key)
-                return Maybe.of(S.any_str(env), d)
+                val = S.any_str(env)
+                if key is not None and isinstance(obj.query, Str):
+                    val.reg = (obj.name, key, obj.query.sid)
+                return Maybe.of(val, d)
             if name in ('items', 'keys', 'values'):
                 return ListOf(Tup([S.any_str(env), S.any_str(env)]) if name == 'items' else S.any_str(env), 0, None)
             if name == 'update':
